@@ -4,7 +4,7 @@ from common import *
 
 RULE = ("structured records (`rec`): locus (name or none, length, one of poly's 12 molecule types or none, topology, division, date, unit), six "
         "metadata texts of ASCII words (single blanks; in 30 % of the free records 2 % of the gaps are runs of 2-3 blanks) with log-uniform "
-        "length to MAXMETA characters (wrapping from 69), 0..5 references (Index positional, rarely unset / renumbered) "
+        "length to MAXMETA characters (wrapping from 69), 0..5 references (Index positional, in 4 % of the free records unset or another token) "
         "(optional AUTHORS/TITLE/JOURNAL/PUBMED/REMARK), 0..4 extra keyword blocks (keys of 1..11 columns), 0..MAXFEAT features with "
         "0..8 qualifiers (printable ASCII values, to several hundred characters, never wrapped by the writer), location either cached "
         "text or structural (span incl. {0,0} and reversed / complement incl. of a complement / join / Join-less multi-operand node / nested, "
@@ -36,8 +36,10 @@ ASSUMPTIONS = ["all text is printable ASCII",
                "value beginning or ending with a quotation mark, a qualifier key with '/' or '='; a cached location text that does not denote the "
                "structure; Start/End on a node with operands, Join without operands, a one-operand node that is neither a join nor a double "
                "complement; a sequence with non-letters or of length 0",
-               "IN the domain since the review (and judged): metadata with runs of blanks, name-less records, any Reference.Index (three known "
-               "findings); features without location {0,0}, reversed / negative spans, Join-less multi-operand nodes, complement of complement (all pass)"]
+               "Reference.Index is PRESERVED WHEN SET (any blank-free token; be39eee) and DEFAULTED to the position when unset: an unset Index reads "
+               "back as the position by design (like the GFF defaults), and `abs` / the judge expect exactly that (refNum, withDefaultIndex); an Index "
+               "holding a blank is excluded (the REFERENCE line separates number and range by blanks)",
+               "IN the domain since the review (and judged): metadata with runs of blanks, name-less records (two known findings), any blank-free Reference.Index; features without location {0,0}, reversed / negative spans, Join-less multi-operand nodes, complement of complement (all pass)"]
 PARTIAL = ["build_strict_layout_partial: proved for WFLayout (single-spaced metadata, non-empty name); the judge's domain wfLayoutJ also holds metadata "
            "with runs of blanks and name-less records, where the clause FAILS exactly on the known findings C03-blank-run-at-wrap (witness "
            "blank_run_at_wrap_record_witness) and C03-nameless-locus (witness nameless_locus_witness); a record with blank runs none of which "
@@ -50,15 +52,14 @@ PARTIAL = ["build_strict_layout_partial: proved for WFLayout (single-spaced meta
            "writes `1` where Build writes `1` + two blanks] and number+range fit on one line [a break of WrapString inside the range needs the bridge "
            "lemma for texts with a blank run; not done]; (7) extra keywords of <= 10 capitals [isExtraKey]; (8) qualifier keys over [A-Za-z0-9_] "
            "[isQualKeyChar]; (9) no quotation mark in values [GbLayout.wfQual]; (10) feature keys / location texts over C01's character sets "
-           "[isFeatKeyChar, isLocChar / isLocText: no '-' of a negative coordinate]; (11) single-spaced metadata, name present, positional Index [wfSeq: the three "
-           "known findings]. A request to generalise GbRec is in notes/requests/C01-from-C03.md",
+           "[isFeatKeyChar, isLocChar / isLocText: no '-' of a negative coordinate]; (11) single-spaced metadata, name present [wfSeq: the two known findings] and positional Index "
+           "[toRefs numbers by position]. A request to generalise GbRec is in notes/requests/C01-from-C03.md",
            "parse_build_partial compares the location TEXT of each feature (Genbank.parse leaves parseLocation to C02). That the STRUCTURE "
            "parseLocation derives from that text equals the record's SequenceLocation (modulo normLoc) rests on (a) wfSeq's conjunct cacheConsistent for "
            "cached texts and (b) property C02's theorem parsed_structure (Props/C02.lean: parseLocation (print l) = ok (pembed l)) together with "
            "build_parsed_is_insdc_lenient for structural ones; in this check it is judged on every case: the real SequenceLocation of "
            "Parse(Build(x)) is compared with x's by locBeq ∘ normLoc",
-           "known findings (judge FAILS, tagged): C03-blank-run-at-wrap, C03-nameless-locus, C03-reference-number (witness reference_number_witness: "
-           "Build never reads Reference.Index)"]
+           "known findings (judge FAILS, tagged): C03-blank-run-at-wrap, C03-nameless-locus (exactly Locus.Name == \"\")"]
 PROOF_MODULES = ["PolyVerif.Props.C03", "PolyVerif.Props.C03Parse"]
 
 MOLTYPES = ["DNA", "genomic DNA", "genomic RNA", "mRNA", "tRNA", "rRNA", "other RNA", "other DNA",
@@ -238,9 +239,9 @@ def gen_record(r, maxseq, maxfeat, maxmeta, cached_mode, shadow=False, covered=F
     if (not covered) and r.random() < 0.02:
         rec["name"] = ""                                # a record assembled without a locus name (known finding)
     refs = []
-    renumber = (not covered) and r.random() < 0.04      # Reference.Index unset / not the position (known finding)
+    renumber = (not covered) and r.random() < 0.08      # Reference.Index unset / not the position (repaired by be39eee: ordinary cases)
     for i in range(r.choice([0, 0, 1, 1, 2, 3, 4, 5])):
-        refs.append((r.choice(["", str(i + 2), "7"]) if renumber else str(i + 1), text(r, maxmeta // 2, 0.2, kw=r.random() < 0.15), text(r, maxmeta // 2, 0.2, kw=r.random() < 0.15),
+        refs.append((r.choice(["", str(i + 2), "7", "12a"]) if renumber else str(i + 1), text(r, maxmeta // 2, 0.2, kw=r.random() < 0.15), text(r, maxmeta // 2, 0.2, kw=r.random() < 0.15),
                      text(r, 200, 0.2), text(r, 12, 0.4), text(r, maxmeta // 2, 0.5),
                      "" if (r.random() < 0.15 and not covered) else
                      ("(bases %d to %d)" % (r.randint(1, n), n) if (covered or r.random() < 0.85) else
